@@ -120,7 +120,7 @@ def main():
                'Lagrange3 cannot be instantiated with a non-literal scalar (static constexpr DataType coefficients): its pointwise identities are outside (its DOF orientation handling is covered by the E3 continuity part); Hermite3/Argyris/BFS/CaiDouSanSheYe/Q1~-bnp, inverse mapping are outside')
     only = os.environ.get('C15_ONLY')
     if not only:
-        e2prop.run_e2(chk, e2prop.e2_harness_path('c15_e2.cpp'), 'c15_e2', timeout=25 if quick else 300, harness_args=['--bounds', lvl], max_group=1)
+        e2prop.run_e2(chk, e2prop.e2_harness_path('c15_e2.cpp'), 'c15_e2', timeout=25 if quick else 90, harness_args=['--bounds', lvl], max_group=1)
     # ---- E3 part: inter-cell continuity with symbolic numbering (evaluators executed in IEEE double, index sets symbolic)
     bdir = C.mkdir(os.path.join(C.BUILD, 'C15'))
     wrapper = os.path.join(C.VERIF, 'wrappers', 'c15_cont.cpp')
